@@ -118,6 +118,12 @@ CHECKS = {
         ref="DESIGN.md section 6 C16",
         note="One service per gateway (merging is C03); mixed introspection + data operations are exercised by C07's shapes.",
         technique="TLA+ contract + TLC enumeration of feature sets replayed on the real gateway (and a second gateway behind it) + TLC trace validation"),
+    "C17": dict(
+        category="model_checking",
+        text="SubscriptionAbs.tla: the delivery contract per (connection, id) - the frames read under an id are, in order, one per event the owning service emitted: a `data` message whose payload equals Stitch(world, subscription, event) with no errors for a data event, the upstream's error messages for an error event; no frame under an id nobody subscribed with, never more frames than events, and when the system is quiet every event has been delivered. TLC model-checks the contract on an abstract payload domain against a FIFO-forwarder design (holds, incl. eventual delivery) and a forwarder that may tag with another id (violated). SubscriptionTrace.tla binds Stitch to Norm(GQL!Ref(world with the event's value at the Subscription root field, operation)) - the same reference evaluator that decides C01 - and validates recorded traces of the real gateway: generated worlds with a Subscription root split over up to 3 services, 1-2 real websocket connections, 1-4 subscriptions (same operation several times, same id on two connections), seeded event histories (data, data-with-errors, error messages) emitted by fake upstreams over real TCP, interleaved at random, gateway configurations default/cached/sanitize/idhint.",
+        ref="DESIGN.md section 6 C17",
+        note="Direction B only: schedules are not forced (free-running goroutines with seeded delays); operations come from the core stratum of the C01 generator (C01's recorded findings are switched off here); follow-up services answer honestly.",
+        technique="TLA+ contract checked by TLC on an abstract domain + TLC trace validation of frames recorded from the real gateway against GQL!Ref, with an R7 cross-check of the harness's evaluator on every event"),
     "C18": dict(
         category="model_checking",
         text="SubscriptionImpl.tla: one subscription on one client connection as the code is written - connection handler (stop, terminate, malformed message, abrupt disconnect; deferred exit: close frame, conn.Close, CleanAll), Listen (select on respCh/closeCh, prepare, write, deferred close of queryerCloseCh), Close, the upstream reader (read; select{respCh<-payload | <-queryerCloseCh}; exit path) and closer of MultiOpQueryer.Subscribe, plus the start whose upstream handshake fails - one action per step between two hook points, over 9 client scripts x 10 upstream scripts (event, error message, complete, disconnect). TLC: NoLeak (at every state where nothing can happen any more, an ended subscription/connection has no goroutine and no upstream connection left), termination EventuallyGone under weak fairness, TypeOK; SubscriptionFrames.tla: frames of concurrent writers reach the wire intact iff handed over in one Write call or under a lock. Binding: behaviours of the model (complete edge cover of its state graph in the thorough tier + sampled maximal paths) are forced on the real gateway over real websocket/TCP connections by parking every goroutine at its hook points and comparing the parked set with the model's program counters after every action; verdict from the real process: death of the (child) process, goroutines or upstream connection left after the end, malformed frame at the client.",
